@@ -73,6 +73,9 @@ def run(ctx):
                    hi <= 1, f'the rule can match {hi if hi < 2**31 else "arbitrarily many"} characters: a run of unrecognised characters '
                    f'(and whatever else the class contains, e.g. a line break after a control character) becomes one Error token')
     ctx.info['min_width_histogram'] = {str(k): widths.count(k) for k in sorted(set(widths))}
+    from .. import rules_lexer as RL
+    ctx.rule('R1.12', 'Lexer.get_tokens interpreted on short texts: total, lossless, and exactly the table model (fast paths and reduced tables included)', floor=1)
+    RL.check_scan_semantics(ctx, 'R1.12', table_agreement=False)
     check_scan_loop(ctx, T)
     check_is_keyword(ctx)
     check_set_regex(ctx)
